@@ -17,7 +17,7 @@ def con():
 def _adapt(v):
     import datetime as dt
     if isinstance(v, dt.datetime):
-        return v.strftime("%Y-%m-%d %H:%M:%S")
+        return v.replace(microsecond=0).isoformat(sep=" ")   # strftime does not zero-pad years < 1000
     if isinstance(v, dt.date):
         return v.isoformat()
     if isinstance(v, bool):
